@@ -236,3 +236,24 @@ RULES.update({
 })
 DESIGN_REF = {}
 NOT_APPLICABLE = []
+
+
+RULES.update({
+    "C01": RULES["C01"] + "; plus c01enum: all three-operation sequences over a 118-op alphabet from an empty volume (exhaustive in the thorough tier, strided in quick); fill workloads on tiny fixed roots / tiny volumes",
+    "C02": RULES["C02"] + "; plus c02grid (initial size x seek target x seek form x op x buffer length over {0,1,cs-1,cs,cs+1,2cs-1,2cs,2cs+1,3cs-1,3cs,3cs+1,size-1,size,size+1} for five cluster sizes x three FAT widths, each as its own history) and the std::io face (write_all/read_exact/read_to_end/seek on StdIoWrapper<Cursor>)",
+    "C05": RULES["C05"] + "; plus c05cycle: 8 (quick) / 30 (thorough) fill-to-full / delete-all cycles on 60 volume x directory x stats-order combinations: bytes written per cycle and free count after delete-all must repeat",
+    "C09": RULES["C09"] + "; plus random histories with one fault at a random device call of a random operation (reference model up to the fault) and a failing std::io storage behind StdIoWrapper",
+    "C12": RULES["C12"] + "; plus c12fault: every device-write index of scripted histories fails once, the session carries on, raw image vs mount-time image at every boundary",
+    "C14": RULES["C14"] + "; plus c14fault: a flush whose k-th device write/seek/flush fails and that succeeds when retried must be durable (remount of the image at that point)",
+})
+
+# finite sub-spaces that a run enumerates completely (reported in the evidence, the verdict stays 'held on what was executed')
+EXHAUSTIVE = {
+    "C06": "thorough: every total-sector count in [0, 2^32) with default options through the boot-sector hook; quick: the first 300000 sizes and +-4096 around every threshold",
+    "C07": "every value of every 8-bit and 16-bit BPB field on the fat12/fat16/fat32 bases (fat16-4k base strided in quick)",
+    "C09": "every device-call index k of every scenario x geometry (single-fault enumeration)",
+    "C15": "every BMP scalar value in three positions; every length 0..300 for five unit patterns",
+    "C17": "all order/checksum/fill patterns for runs of up to three long-name slots x five followers; every value of every byte of a 3-slot base run; every order byte for a stray slot behind a complete run",
+    "C18": "every (year, month, day) accepted by Date::new and every (hour, minute, second, 10 ms step)",
+    "C01": "thorough: all 118^3 three-operation sequences on FAT12, FAT16 and FAT32",
+}
